@@ -221,7 +221,7 @@ def _key(case):
 
 
 def gen_case(rng):
-    nvar = rng.choice([2, 3, 4, 5, 8, 12, 20, 40])
+    nvar = rng.choice([2, 3, 4, 5, 8, 12, 20, 40, 70, 140, 200, 260])  # also far more variants than any block size of the coverage monitor
     positions = sorted(rng.sample(range(1, 10 * nvar + 2), nvar))
     nreads = rng.choice([1, 2, 3, 5, 8, 15, 30, 60, 120, 200])
     k = rng.choice([1, 1, 2, 2, 3, 4, 5, 6, 7, 8, 15])
@@ -241,9 +241,12 @@ def gen_case(rng):
             a, b = rng.choice(span_pool)
         else:
             a = rng.randrange(0, nvar - 1)
-            maxlen = rng.choice([1, 2, 3, nvar])
+            maxlen = rng.choice([1, 2, 3, nvar]) if nvar <= 40 else rng.choice([1, 3, 10, 40, nvar, nvar])
             b = min(nvar - 1, a + rng.randint(1, maxlen))
-        inner = [i for i in range(a + 1, b) if rng.random() < rng.choice([1.0, 0.8, 0.3])]
+            if nvar > 40 and rng.random() < 0.15:
+                a, b = rng.randrange(0, 8), nvar - 1 - rng.randrange(0, 8)  # a read across (almost) the whole contig
+        dens = rng.choice([1.0, 0.8, 0.3]) if nvar <= 40 else rng.choice([1.0, 0.3, 0.05, 0.0])
+        inner = [i for i in range(a + 1, b) if rng.random() < dens]
         idx = [a] + inner + [b]
         if qmode == "equal":
             q = [30] * len(idx)
